@@ -4,7 +4,8 @@ from checks.common import *
 LEVEL = "proof"
 RULE = ("registrations x alternative server setups that share the OPRF seed but carry another static key (fresh, another "
         "server's, the fake key), all identity/context variants; oracle: genuine setup reports its own public key at registration "
-        "and login; the substituted-key login fails at the client's final step. distinct = distinct (suite, setup pair, parameters)")
+        "and login; the substituted-key login fails at the client's final step; the binding tag is compared in full (a stolen file "
+        "whose tag is altered in one byte, or in all bytes but one, fails under the genuine and under another key). distinct = distinct (suite, setup pair, parameters)")
 ASSUMPTIONS = ["substituted-key theorem holds up to an explicit HMAC collision event (Bad)"]
 
 
@@ -41,6 +42,37 @@ def substituted(ctx, idu, ids, context, variant):
     ctx.expect(h.ok and h.spk_login == pk, "control: genuine setup logs in and reports its key")
 
 
+def tag_in_full(ctx, idu, ids, context, positions):
+    """the binding is the envelope tag over (nonce, server public key, identities): the client must compare ALL of it.
+    A stolen file whose tag is altered in any single byte (or in every byte but one), served by the genuine server
+    or under another static key, fails at the client's final step."""
+    ctx.nontrivial = True
+    L = ctx.L
+    f = honest_flow(ctx, b"hunter2", b"alice", context, idu, ids, "~", stop_on_error=False, count=True)
+    if not ctx.expect(f.ok, "honest login under the genuine setup succeeds"):
+        return
+    other = honest_flow(ctx, b"x", b"y", registration_only=True)
+    alt = f.setup[:L.Nh] + other.setup[L.Nh:L.Nh + L.Nsk] + f.setup[L.Nh + L.Nsk:]
+    t0 = len(f.file) - L.Nh
+    ctx.counting = True
+    def served(file, setup, what):
+        g = Flow(); g.__dict__.update(f.__dict__)
+        login(ctx, g, b"hunter2", b"alice", context, context, idu, ids, idu, ids, "~", setup, file)
+        ctx.expect(not g.ok and g.failed_at == "login_finish" and g.error == "InvalidLogin",
+                   "file with %s fails at the client (%s at %s)" % (what, "Ok" if g.ok else g.error, g.failed_at))
+    n = L.Nh
+    for j in (range(n) if positions == "all" else sorted({0, 1, n // 2, n - 2, n - 1, int(positions.split("+")[1]) % n})):
+        x = bytearray(f.file); x[t0 + j] ^= 1 << (j % 8)
+        served(bytes(x), f.setup, "envelope tag altered in byte %d of %d" % (j, L.Nh))
+    for keep in (0, L.Nh - 1, L.Nh // 2):
+        x = bytearray(f.file)
+        for j in range(L.Nh):
+            if j != keep:
+                x[t0 + j] ^= 0x5a
+        served(bytes(x), f.setup, "envelope tag altered in every byte but byte %d" % keep)
+        served(bytes(x), alt, "envelope tag altered in every byte but byte %d, under another static key" % keep)
+
+
 def cases(tier, seed):
     out = []
     # all four shapes of (client identity, server identity) in {absent, explicit}^2
@@ -52,4 +84,9 @@ def cases(tier, seed):
                 out.append(dict(cross=["login_finish", "srv_login_finish", "srv_reg_start"], cross_limit=60, script=substituted, suite=s, seed=seed * 100000 + si * 100 + k, mode="pattern+err",
                                 params=dict(idu=a, ids=b, context=c, variant=v)))
                 k += 1
+        pos = "all" if tier == "thorough" else "ends+%d" % (7 * si + seed)
+        for (a, b, c) in idv[:2]:
+            out.append(dict(script=tag_in_full, suite=s, seed=seed * 100000 + si * 100 + k, mode="pattern+err",
+                            params=dict(idu=a, ids=b, context=c, positions=pos)))
+            k += 1
     return out
